@@ -147,7 +147,7 @@ func runWorldDump(cfg Config, args []string) int {
 	var worlds []*sim.WorldSpec
 	switch prop {
 	case "C12":
-		worlds, _ = BuildWorlds(cfg, "C12", cfg.N(3, 16), cfg.N(5, 44), 20, false, 4)
+		worlds, _ = BuildWorlds(cfg, "C12", cfg.N(3, 16), cfg.N(5, 44), 20, false, 6)
 	case "C13":
 		worlds, _ = BuildWorlds(cfg, "C13", cfg.N(6, 16), cfg.N(50, 400), 25, true, 0)
 	case "C15":
